@@ -88,6 +88,15 @@ class Checker:
         for c in reg:
             known[id(c)] = c
         unresolved = {(h, p) for h, p, f in self.net.unresolved_connects if not f.done()}
+        # every open socket of the library that is not the server connection belongs to a registered connection
+        # (also one that was accepted and still waits for its init message: nothing was reported for it yet)
+        reg_t = {id(_lib_transport(c)) for c in reg}
+        srv_t = _lib_transport(self.network.server_connection)
+        for t in self.net.open_library_transports():
+            if t is srv_t or id(t) in reg_t:
+                continue
+            self.add('registry-missing-entry', f"{when} t={self.world.now()}: an open socket ({t.conn.label}) belongs to no "
+                     f"registered peer connection", 'C10:registry-missing-entry:unregistered-socket')
         for c in known.values():
             expected = _is_open(c) or (
                 c.state == ConnectionState.CONNECTING and (c.hostname, c.port) in unresolved)
@@ -249,7 +258,7 @@ def run_one(params: dict, chooser, deviations=True) -> dict:
                         pc.reset()
                 world.post(EnvEvent('inject', f'peer-{ending}', inject, chan=None,
                                     guard=lambda: holder.get('peer_conn') is not None and the_conn() is not None))
-            elif ending in ('wfail_send', 'wfail_queue', 'wstall', 'two-then-disc'):
+            elif ending in ('wfail_send', 'wfail_queue', 'wstall', 'two-then-disc', 'qdisc2'):
                 async def act():
                     c = the_conn()
                     if c is None:
@@ -264,7 +273,13 @@ def run_one(params: dict, chooser, deviations=True) -> dict:
                         return
                     if t is None:
                         return
-                    if ending == 'wstall':
+                    if ending == 'qdisc2':
+                        # a queued message is still waiting to be written while two disconnects overlap
+                        t.get_protocol().pause_writing()
+                        c.queue_message(_msg_for(typ))
+                        await asyncio.sleep(0)
+                        await c.disconnect(CloseReason.REQUESTED)
+                    elif ending == 'wstall':
                         t.get_protocol().pause_writing()
                         await c.send_message(_msg_for(typ))
                     else:
@@ -275,6 +290,12 @@ def run_one(params: dict, chooser, deviations=True) -> dict:
                             task = c.queue_message(_msg_for(typ))
                             await asyncio.gather(task, return_exceptions=True)
                 world.op(after_thread, ending, act)
+                if ending == 'qdisc2':
+                    async def disc2():
+                        c = the_conn()
+                        if c is not None:
+                            await c.disconnect(CloseReason.UNKNOWN)
+                    world.op('v', 'disconnect2', disc2, guard=lambda: the_conn() is not None)
 
         def schedule_reader(thread: str):
             """file connections have no reader task: the transfer code reads them directly"""
@@ -323,6 +344,8 @@ def run_one(params: dict, chooser, deviations=True) -> dict:
                 peer.close_on_eof = True
             elif outcome == 'hang':
                 net.routes[(PEER_IP, port)] = 'hang'
+            elif outcome == 'badport':
+                port = 70000 + (1 if obf else 0)     # the peer announced a port outside the 16 bit range
             else:
                 net.routes[(PEER_IP, port)] = 'refuse'
 
@@ -396,7 +419,12 @@ def run_one(params: dict, chooser, deviations=True) -> dict:
                 net.routes[(PEER_IP, 5000)] = 'hang'
             elif outcome == 'refuse':
                 net.routes[(PEER_IP, 5000)] = 'refuse'
-            if params.get('established'):
+            if params.get('established') == 'silent':
+                # accepted, has not sent its init message yet
+                other = ScriptedPeer(net, 'carol', '10.0.3.8', listen=False)
+                holder['silent'] = other.connect(60000)
+                world.run_default_until_idle()
+            elif params.get('established'):
                 other = ScriptedPeer(net, 'carol', '10.0.3.8', listen=False)
                 other.connect_init(60000, 'P')
                 world.run_default_until_idle()
@@ -407,7 +435,17 @@ def run_one(params: dict, chooser, deviations=True) -> dict:
 
             async def netdisc():
                 await network.disconnect()
+                holder['netdisc_done'] = True
             world.op('u', 'network.disconnect', netdisc)
+            if params.get('established') == 'silent':
+                # the init message arrives after the shutdown
+                def late_init():
+                    pcs = holder.get('silent')
+                    if pcs is not None and not pcs.end.closed:
+                        from aioslsk.protocol.messages import PeerInit
+                        pcs.send(PeerInit.Request('carol', 'P', 0))
+                world.post(EnvEvent('inject', 'late-init', late_init, chan=None,
+                                    guard=lambda: holder.get('netdisc_done', False)))
         else:   # server
             outcome = params['connect']
             if outcome == 'hang':
@@ -482,25 +520,25 @@ def run_one(params: dict, chooser, deviations=True) -> dict:
 def scenarios(tier: str):
     out = []
     endings_pd = ['disc1', 'disc2', 'disc-cancel', 'eof', 'reset', 'rtimeout', 'wfail_send', 'wfail_queue', 'wstall',
-                  'two-then-eof', 'two-then-disc']
-    endings_f = ['disc1', 'disc2', 'disc-cancel', 'eof', 'reset', 'wfail_send', 'wfail_queue', 'wstall']
+                  'two-then-eof', 'two-then-disc', 'qdisc2']
+    endings_f = ['disc1', 'disc2', 'disc-cancel', 'eof', 'reset', 'wfail_send', 'wfail_queue', 'wstall', 'qdisc2']
     for obf in (False, True):
         for typ in ('P', 'D', 'F'):
             for ending in (endings_f if typ == 'F' else endings_pd):
                 out.append({'kind': 'out', 'typ': typ, 'obf': obf, 'connect': 'ok', 'ending': ending})
             out.append({'kind': 'out', 'typ': typ, 'obf': obf, 'connect': 'ok', 'ending': 'none', 'cancel': True})
-            for outcome in ('refuse', 'hang'):
+            for outcome in ('refuse', 'hang', 'badport'):
                 out.append({'kind': 'out', 'typ': typ, 'obf': obf, 'connect': outcome, 'ending': 'none'})
                 out.append({'kind': 'out', 'typ': typ, 'obf': obf, 'connect': outcome, 'ending': 'none', 'cancel': True})
         for first in ('P', 'D', 'F'):
-            for ending in (['disc1', 'disc2', 'disc-cancel', 'eof', 'reset', 'wfail_send', 'wstall'] +
+            for ending in (['disc1', 'disc2', 'disc-cancel', 'eof', 'reset', 'wfail_send', 'wstall', 'qdisc2'] +
                            (['rtimeout', 'two-then-eof', 'two-then-disc'] if first != 'F' else [])):
                 out.append({'kind': 'in', 'first': first, 'obf': obf, 'ending': ending})
         for first in ('pierce-unknown', 'undecodable', 'non-init', 'eof', 'reset', 'partial-eof', 'silence'):
             out.append({'kind': 'in', 'first': first, 'obf': obf})
     for outcome in ('ok', 'refuse', 'hang'):
         for typ in ('P', 'F'):
-            for est in (False, True):
+            for est in (False, True, 'silent'):
                 out.append({'kind': 'netdisc', 'connect': outcome, 'typ': typ, 'established': est})
     for outcome in ('ok', 'refuse', 'hang'):
         endings = ['disc1', 'eof', 'reset', 'rtimeout', 'wstall'] if outcome == 'ok' else ['none']
